@@ -402,8 +402,11 @@ def load_known():
 
 
 def write_evidence(pid, ev):
-    os.makedirs(EVIDENCE, exist_ok=True)
-    p = os.path.join(EVIDENCE, pid + ".json")
+    # evidence/ holds only runs against /repo itself; runs against a scratch checkout
+    # (VERIF_REPO, used to evaluate candidate changes) are written elsewhere
+    d = EVIDENCE if os.path.realpath(REPO) == "/repo" else os.path.join(CACHE, "evidence-alt")
+    os.makedirs(d, exist_ok=True)
+    p = os.path.join(d, pid + ".json")
     json.dump(ev, open(p, "w"), indent=1, sort_keys=True)
     return p
 
